@@ -59,6 +59,12 @@ def models(tier):
     out.append(monitors.ScenarioModel("connection-awaiting-DWA", wd,
                                       [("m", 0, n) for n in ("rq:3:own", "rq:4:own", "rq:9:own", "rq:3:own:missing", "dwa", "dwr")] + [("ans", 0), ("tick", 1)],
                                       MONS, max_socks=1, prelude=[("accept",), ("m", 0, "cer_p0"), ("tick", 3)]))
+    # one peer holds two ready connections (it connected twice): requests are served on both, whichever the node regards as the
+    # peer's current one, also after either of them has gone
+    out.append(monitors.ScenarioModel("one-peer-two-connections", CFG3,
+                                      [("m", c, n) for c in (0, 1) for n in ("rq:3:own", "rq:4:own", "rq:4:r2", "rq:9:own", "rq:3:own:missing", "dwr")] +
+                                      [("eof", 0), ("eof", 1), ("m", 0, "dpr"), ("ans", 0), ("ans", 1)],
+                                      MONS, max_socks=2, prelude=[("accept",), ("m", 0, "cer_p0"), ("accept",), ("m", 1, "cer_p0")]))
     # a second deterministic scheduling policy (the I/O thread runs only when nothing else can): thorough tier
     if tier == "thorough":
         out = monitors.with_io_last(out)
